@@ -56,6 +56,11 @@ func ReadDir(name string) ([]os.FileInfo, error) {
 	}
 	r, err := ioutil.ReadDir(name)
 	vos.Leave(op, err)
+	if vos.MtimeGranularity > 0 {
+		for i := range r {
+			r[i] = vos.Coarsen(r[i])
+		}
+	}
 	return r, err
 }
 
